@@ -221,20 +221,21 @@ const (
 )
 
 type Proxy struct {
-	cond      *sync.Cond
-	Sock      string
-	upstream  string
-	ln        net.Listener
-	mu        sync.Mutex
-	conns     int
-	Log       []Msg
-	Forwarded []Msg // messages actually written to the other side
-	Decide    func(m Msg) Decision
-	Rewrite   func(m Msg) json.RawMessage // non-nil result replaces the forwarded bytes
-	accept    bool
-	closed    bool
-	live      []net.Conn
-	wg        sync.WaitGroup
+	cond        *sync.Cond
+	Sock        string
+	upstream    string
+	ln          net.Listener
+	mu          sync.Mutex
+	conns       int
+	Log         []Msg
+	Forwarded   []Msg // messages actually written to the other side
+	Decide      func(m Msg) Decision
+	Rewrite     func(m Msg) json.RawMessage // non-nil result replaces the forwarded bytes
+	closedConns map[int]bool
+	accept      bool
+	closed      bool
+	live        []net.Conn
+	wg          sync.WaitGroup
 }
 
 func NewProxy(upstream string) *Proxy {
@@ -276,7 +277,19 @@ func (p *Proxy) serve() {
 		p.mu.Unlock()
 		var idx int64 = -1
 		var once sync.Once
-		cut := func() { once.Do(func() { c.Close(); s.Close() }) }
+		cut := func() {
+			once.Do(func() {
+				c.Close()
+				s.Close()
+				p.mu.Lock()
+				if p.closedConns == nil {
+					p.closedConns = map[int]bool{}
+				}
+				p.closedConns[n] = true
+				p.cond.Broadcast()
+				p.mu.Unlock()
+			})
+		}
 		pump := func(dir string, from, to net.Conn) {
 			defer p.wg.Done()
 			defer cut()
@@ -358,6 +371,23 @@ func (p *Proxy) WaitFor(pred func(fwd []Msg) bool, timeout time.Duration) bool {
 		p.cond.Wait()
 	}
 	return true
+}
+
+// WaitClosed waits until connection n has been closed (by either peer or by a cut).
+func (p *Proxy) WaitClosed(n int, timeout time.Duration) bool {
+	deadline := time.Now().Add(timeout)
+	for {
+		p.mu.Lock()
+		ok := p.closedConns[n]
+		p.mu.Unlock()
+		if ok {
+			return true
+		}
+		if time.Now().After(deadline) {
+			return false
+		}
+		time.Sleep(2 * time.Millisecond)
+	}
 }
 
 // Quiesce waits until the proxy has seen no new message for the given window (at most max): whatever a peer wrote before
